@@ -55,7 +55,7 @@ def builder_interp(m: Model):
     fns = {}
     for name in ('snode', 'swnode', 'sdnode', 'sdwnode', 'anode', 'sdwgroup'):
         fns[name] = m.func(PROOF, name)
-        it.g[name] = (lambda n: (lambda *a: it.call(fns[n], list(a))))(name)
+        it.g[name] = (lambda n: (lambda *a: it.safe(fns[n], list(a))))(name)
     return it, fns, keys
 
 
@@ -73,22 +73,22 @@ def check_builders(m: Model):
             exp[keys['world']] = w
         return exp
     for d, w in itertools.product((None, True, False), (None, W)):
-        got = it.call(fns['sdwnode'], [S, d, w])
+        got = it.safe(fns['sdwnode'], [S, d, w])
         out.append((isinstance(got, MockNode) and dict(got) == want(S, d, w), f'sdwnode(S, {d}, {w})', dict(got) if isinstance(got, dict) else got, want(S, d, w)))
     for d in (None, True, False):
-        got = it.call(fns['sdnode'], [S, d])
-        out.append((isinstance(got, MockNode) and dict(got) == want(S, d, None), f'sdnode(S, {d})', dict(got), want(S, d, None)))
+        got = it.safe(fns['sdnode'], [S, d])
+        out.append((isinstance(got, MockNode) and dict(got) == want(S, d, None), f'sdnode(S, {d})', got, want(S, d, None)))
     for w in (None, W):
-        got = it.call(fns['swnode'], [S, w])
-        out.append((isinstance(got, MockNode) and dict(got) == want(S, None, w), f'swnode(S, {w})', dict(got), want(S, None, w)))
-    got = it.call(fns['snode'], [S])
-    out.append((dict(got) == want(S, None, None), 'snode(S)', dict(got), want(S, None, None)))
-    got = it.call(fns['anode'], [3, 4])
+        got = it.safe(fns['swnode'], [S, w])
+        out.append((isinstance(got, MockNode) and dict(got) == want(S, None, w), f'swnode(S, {w})', got, want(S, None, w)))
+    got = it.safe(fns['snode'], [S])
+    out.append((isinstance(got, MockNode) and dict(got) == want(S, None, None), 'snode(S)', got, want(S, None, None)))
+    got = it.safe(fns['anode'], [3, 4])
     exp = {keys['world1']: 3, keys['world2']: 4}
-    out.append((isinstance(got, MockNode) and got.cls == 'AccessNode' and dict(got) == exp, 'anode(3, 4)', dict(got), exp))
-    got = it.call(fns['sdwgroup'], [(S, True, W), (S, False, None)])
+    out.append((isinstance(got, MockNode) and got.cls == 'AccessNode' and dict(got) == exp, 'anode(3, 4)', got, exp))
+    got = it.safe(fns['sdwgroup'], [(S, True, W), (S, False, None)])
     exp = [want(S, True, W), want(S, False, None)]
-    out.append((isinstance(got, tuple) and [dict(x) for x in got] == exp, 'sdwgroup((S,True,W),(S,False,None))', [dict(x) for x in got], exp))
+    out.append((isinstance(got, tuple) and [dict(x) for x in got] == exp, 'sdwgroup((S,True,W),(S,False,None))', got, exp))
     return out, [m.loc(PROOF, f) for f in fns.values()]
 
 
@@ -126,7 +126,7 @@ def check_sentence_filter(m: Model):
     f_build, f_sentence, f_call = fn('CompareSentence', '_build'), fn('CompareSentence', 'sentence'), fn('CompareSentence', '__call__')
     f_rget = fn('NodeSentence', 'rget')
     f_getattr_safe = m.func(FILTERS, 'getattr_safe')
-    it.g['getattr_safe'] = lambda o, n: it.call(f_getattr_safe, [o, n])
+    it.g['getattr_safe'] = lambda o, n: it.safe(f_getattr_safe, [o, n])
     # class-level constants of CompareSentence, folded from the class body
     raw, _ = m.getraw(CS, 'compmap')
     if raw is None:
@@ -163,21 +163,21 @@ def check_sentence_filter(m: Model):
     for rname, spec in rules.items():
         want = spec.pop('want')
         rule = Obj(f'rule:{rname}', **spec)
-        compitem = it.call(f_build, [cls, rule])
+        compitem = it.safe(f_build, [cls, rule])
         self_ = Obj('filter', compitem=compitem)
-        self_.rget = lambda node: it.call(f_rget, [node])
-        self_.sentence = lambda rhs: it.call(f_sentence, [self_, rhs])
+        self_.rget = lambda node: it.safe(f_rget, [node])
+        self_.sentence = lambda rhs: it.safe(f_sentence, [self_, rhs])
         for cname, s in cases.items():
             node = {keys['sentence']: s}
-            got = bool(it.call(f_call, [self_, node]))
+            got = bool(it.safe(f_call, [self_, node]))
             results.append((got == (cname in want), f'filter[{rname}] on node {cname}', got, cname in want))
             # the sentence handed to the rule body: the negatum for negated rules
             if cname in want:
-                ssel = it.call(f_sentence, [self_, node])
+                ssel = it.safe(f_sentence, [self_, node])
                 exp = s.lhs if spec.get('negated') else s
                 results.append((ssel is exp, f'filter[{rname}].sentence({cname})', repr(ssel), repr(exp)))
         # a node without a sentence never matches
-        got = bool(it.call(f_call, [self_, {}]))
+        got = bool(it.safe(f_call, [self_, {}]))
         results.append((got is False, f'filter[{rname}] on a node without sentence', got, False))
     return results, consulted
 
@@ -191,7 +191,7 @@ def check_designation_filter(m: Model):
     f_call = m.func(FILTERS, 'CompareAttr.__call__')
     f_rget = m.func(FILTERS, 'NodeDesignation.rget')
     f_gs = m.func(FILTERS, 'getattr_safe')
-    it.g['getattr_safe'] = lambda o, n: it.call(f_gs, [o, n])
+    it.g['getattr_safe'] = lambda o, n: it.safe(f_gs, [o, n])
     it.g['getattr'] = lambda o, n, *d: getattr(o, n, *d)
     raw, _ = m.getraw(ND, 'attrmap')
     attrmap = it.ev(raw[1], {})
@@ -201,12 +201,12 @@ def check_designation_filter(m: Model):
     results = []
     for d in (True, False, None):
         rule = Obj('rule', designation=d)
-        compitem = it.call(f_build, [cls, rule])
+        compitem = it.safe(f_build, [cls, rule])
         self_ = Obj('filter', compitem=compitem, fcmp=fcmp)
-        self_.rget = lambda node, key: it.call(f_rget, [node, key])
+        self_.rget = lambda node, key: it.safe(f_rget, [node, key])
         for nd in (True, False, None):
             node = {keys['designated']: nd}
-            got = bool(it.call(f_call, [self_, node]))
+            got = bool(it.safe(f_call, [self_, node]))
             want = True if d is None else (nd == d)
             results.append((got == want, f'NodeDesignation[rule.designation={d}] on node designated={nd}', got, want))
     return results, [m.loc(FILTERS, x) for x in (f_build, f_call, f_rget)]
